@@ -272,7 +272,26 @@ def solve_query(qfn, files, tier, K=6, N=24, timeout_ms=120000, native_map=None,
     solver_time += time.time() - t
     if r0 != z3.sat:
         res.update(result="INCONCLUSIVE", reason="assumptions unsatisfiable or undecided (%s): vacuous query" % r0)
+    # Batch the (usually many) panic and unwinding obligations: if the disjunction of all guards of a kind is
+    # unsatisfiable they are all discharged by ONE solver call; otherwise fall back to one call each.
+    batched = {}
+    for kind in ("panic", "unwind"):
+        group = [ob for ob in obls if ob.kind == kind]
+        if len(group) > 3:
+            s.push()
+            s.add(z3.Or([ob.cond for ob in group]))
+            t = time.time()
+            rb = s.check()
+            dt = time.time() - t
+            solver_time += dt
+            s.pop()
+            if rb == z3.unsat:
+                for ob in group:
+                    batched[id(ob)] = round(dt / len(group), 4)
     for ob in obls:
+        if id(ob) in batched:
+            res["obligations"].append({"kind": ob.kind, "label": ob.label, "solver": "unsat (batched)", "time_s": batched[id(ob)], "status": "DISCHARGED"})
+            continue
         s.push()
         if ob.kind == "prove":
             s.add(z3.Not(ob.cond))
